@@ -183,7 +183,7 @@ hist_prop("C02",
 
 hist_prop("C04",
     ["c04_once_per_cycle", "c04_dupe_gets_pubrec", "c04_dupe_gets_pubrec_big", "c04_pubrel_gets_pubcomp", "c04_marker_before_pubrec"],
-    ["closed loop (InboundWorld.v): the client's step shapes are read off Session.v and justified by the cited handler theorems (c04_tie_*), not proved as a refinement; the broker is the MQTT 3.1.1 figure 4.3 sender deciding on the identifier only, its session survives, one FIFO connection at a time",
+    ["closed loop (InboundWorld.v): InboundTie.v projects every step and every run of the executable session model onto the client part of the slim receiver (c04_tie_step_islim, c04_tie_run_islim: islim = (marker set of the store, pending PUBREC/PUBCOMP)), under invariants of step that are proved preserved: ascending keys, every marker record decodes (a damaged marker is deleted by AdoptSession, which the slim Restart does not do: C16's subject), inbound bytes are bytes; queue effects are InboundWorld's own environment; the broker is the MQTT 3.1.1 figure 4.3 sender deciding on the identifier only, its session survives, one FIFO connection at a time",
      "the window in which a second delivery is possible is wider than the BUG comment in client.go says: a plain process stop between the ReadSlices call that returned the message and the next one (which saves the marker and writes PUBREC) re-delivers after AdoptSession, without any Save error (window_second_delivery); at most one extra delivery per such stop (c04_once_per_cycle with the ghost i_lost) - this is what C07's ownership rule implies and the property excludes it",
      "recorded finding F25: when the BROKER starts a new session (CONNACK without session-present) the reception markers stay; the next message that reuses such an identifier is acknowledged and never returned (clean_session_restart_loses_message; reproduced by the scripted history 'F25')"],
     "C04 generator: broker-initiated QoS 2 publishes with retransmissions (same content, DUP), PUBREL after PUBREC, loss of acknowledgements, big messages (buffer 32/64), restarts.",
